@@ -10,6 +10,7 @@ budget managers, the baselines and every strategy exported by skactiveml.stream 
 import numpy as np
 
 from .. import vlib
+from ..vlib import f2bits
 from . import _stream as S
 
 LEAN_TARGETS = ["SkaModel.Props.C03"]
@@ -160,6 +161,85 @@ def strategy_history(ctx, rng, name, mgr_kind, default_mgr=False):
             return
 
 
+UNSEEDED = ["StreamRandomSampling", "StreamRandomSampling", "PeriodicSampling", "RandomVariableUncertainty", "Split",
+            "StreamProbabilisticAL", "CognitiveDualQueryStrategyRan", "StreamDensityBasedAL", "VariableUncertainty"]
+
+
+def unseeded_history(ctx, rng, name):
+    """`random_state=None` (the default): the strategy draws from numpy's global generator.  Purity is judged for a
+    fixed state of that generator at the start of the history (np.random.seed): repeated queries agree, and extra
+    queries do not change any later result."""
+    from skactiveml import stream
+
+    b = rng.choice([0.25, 0.5, 1.0])
+    gs = rng.randrange(2**31 - 1)
+    n = rng.randint(3, 12)
+    cand = S.gen_candidates(rng, n)
+    chunks = S.gen_chunks(rng, n, maxc=4)
+    base = name in ("StreamRandomSampling", "PeriodicSampling")
+    allow = rng.random() < 0.5
+
+    def make():
+        if name == "StreamRandomSampling":
+            return stream.StreamRandomSampling(budget=b, allow_exceeding_budget=allow)
+        if name == "PeriodicSampling":
+            return stream.PeriodicSampling(budget=b)
+        return S.make_strategy(name, None, b, None, default_mgr=True)
+
+    def q(qs, c):
+        idx, ut = qs.query(c, return_utilities=True) if base else S.strat_query(qs, c)
+        return [int(i) for i in idx], [f2bits(v) for v in np.asarray(ut, dtype=float)]
+
+    def upd(qs, c, idx, ut):
+        if base:
+            qs.update(c, np.array(idx, dtype=int))
+        else:
+            S.strat_update(qs, c, np.array(idx, dtype=int), np.array([vlib.bits2f(v) for v in ut]))
+
+    extra = {ci: S.gen_candidates(rng, rng.randint(1, 3)) for ci in range(len(chunks)) if rng.random() < 0.6}
+    payload = dict(strategy=name, random_state=None, global_seed=gs, budget=b, allow_exceeding_budget=allow, chunks=chunks,
+                   candidates=cand.tolist(), extra={str(k): v.tolist() for k, v in extra.items()}, oracle="unseeded")
+
+    def run(with_extra, repeat):
+        np.random.seed(gs)
+        qs = make()
+        outs, off, rep_bad = [], 0, None
+        with np.errstate(all="ignore"):
+            for ci, c in enumerate(chunks):
+                ch = cand[off:off + c]
+                off += c
+                if with_extra and ci in extra:
+                    q(qs, extra[ci])
+                r1 = q(qs, ch)
+                if repeat:
+                    r2 = q(qs, ch)
+                    r3 = q(qs, ch)
+                    if r2 != r3 or (ci > 0 and r1 != r2):
+                        rep_bad = rep_bad if rep_bad is not None else ci
+                outs.append(r1)
+                upd(qs, ch, *r1)
+        return outs, rep_bad
+
+    try:
+        a, _ = run(False, False)
+        b_, _ = run(True, False)
+        c_, rep_bad = run(False, True)
+    except Exception as e:  # noqa: BLE001
+        ctx.count("unseeded_history_raised:" + type(e).__name__)
+        return
+    granted = sum(len(o[0]) for o in a)
+    ctx.case(("unseeded", name, gs, b, tuple(chunks)), len(chunks) >= 2 and granted >= 1,
+             sample=dict(strategy=name, random_state=None, global_seed=gs, budget=b, chunks=chunks, outs=a[:4]))
+    ctx.count("unseeded_" + name)
+    if rep_bad is not None:
+        ctx.violate(f"C03/{name}.query/repeated-query-differs/random_state-None",
+                    f"{name}(random_state=None): a repeated query with the same arguments returned a different result (chunk {rep_bad})", payload)
+    elif a != b_ or a != c_:
+        ctx.violate(f"C03/{name}.query/extra-queries-change-behaviour/random_state-None",
+                    f"{name}(random_state=None): extra / repeated query calls changed the results of later calls "
+                    f"(numpy's global generator re-seeded identically before both histories)", payload)
+
+
 def correspond(ctx):
     rng = ctx.rng
     lines, expect = [], []
@@ -181,6 +261,9 @@ def correspond(ctx):
     for name, mk in pairs:
         for _ in range(reps if mk is not None else 3 * reps):
             strategy_history(ctx, rng, name, mk, default_mgr=(mk is None))
+    for _ in range(4 if not ctx.thorough else 30):
+        for name in UNSEEDED:
+            unseeded_history(ctx, rng, name)
     ctx.notes["strategy_grid"] = (f"{len(names)} strategy classes; {len(pairs)} (strategy, manager) pairs = every budget manager each "
                                   f"class accepts + its default manager; {reps} histories per pair (3x for the default manager)")
 
@@ -196,6 +279,8 @@ def search(ctx):
     for _ in range(10):
         for name, mk in S.grid_pairs():
             strategy_history(ctx, rng, name, mk, default_mgr=(mk is None))
+        for name in UNSEEDED:
+            unseeded_history(ctx, rng, name)
         if ctx.violations:
             return
 
@@ -205,6 +290,8 @@ def replay(payload):
 
     ctx = vlib.Ctx("C03", "quick", 0)
     r = payload.get("replay", {})
+    if r.get("oracle") == "unseeded":
+        return replay_unseeded(r)
     if "spec" in r:
         spec = r["spec"]
         run = S.run_case(spec, check_purity=True)
@@ -240,3 +327,56 @@ def replay(payload):
         return 1 if bad else 0
     print("nothing to replay")
     return 0
+
+
+def replay_unseeded(r):
+    import random
+
+    ctx = vlib.Ctx("C03", "quick", 0)
+
+    class Fixed(random.Random):
+        pass
+
+    # re-run the same generator path is not possible without the PRNG state; re-evaluate the recorded history directly
+    from skactiveml import stream
+
+    name, gs, b, allow = r["strategy"], r["global_seed"], r["budget"], r["allow_exceeding_budget"]
+    cand = np.array(r["candidates"], dtype=float)
+    base = name in ("StreamRandomSampling", "PeriodicSampling")
+
+    def make():
+        if name == "StreamRandomSampling":
+            return stream.StreamRandomSampling(budget=b, allow_exceeding_budget=allow)
+        if name == "PeriodicSampling":
+            return stream.PeriodicSampling(budget=b)
+        return S.make_strategy(name, None, b, None, default_mgr=True)
+
+    def q(qs, c):
+        idx, ut = qs.query(c, return_utilities=True) if base else S.strat_query(qs, c)
+        return [int(i) for i in idx], [f2bits(v) for v in np.asarray(ut, dtype=float)]
+
+    bad = False
+    for with_extra in (False, True):
+        np.random.seed(gs)
+        qs, off, outs = make(), 0, []
+        for ci, c in enumerate(r["chunks"]):
+            ch = cand[off:off + c]
+            off += c
+            if with_extra and str(ci) in r["extra"]:
+                q(qs, np.array(r["extra"][str(ci)], dtype=float))
+            r1 = q(qs, ch)
+            r2 = q(qs, ch)
+            r3 = q(qs, ch)
+            if r2 != r3 or (ci > 0 and r1 != r2):
+                print("repeated query differs at chunk", ci, r1, r2, r3)
+                bad = True
+            outs.append(r1)
+            if base:
+                qs.update(ch, np.array(r1[0], dtype=int))
+            else:
+                S.strat_update(qs, ch, np.array(r1[0], dtype=int), np.array([vlib.bits2f(v) for v in r1[1]]))
+        if with_extra:
+            bad = bad or outs != first
+        first = outs
+    print("REPRODUCED" if bad else "not reproduced")
+    return 1 if bad else 0
